@@ -174,6 +174,37 @@ impl<T: Target, U: Target> Target for (T, U) {
     }
 }
 
+/// tuple struct and newtype struct targets (the derive's `deserialize_tuple_struct` / `deserialize_newtype_struct` routes)
+#[derive(Debug, Clone, PartialEq, serde::Deserialize)]
+pub struct PairS<T, U>(pub T, pub U);
+#[derive(Debug, Clone, PartialEq, serde::Deserialize)]
+pub struct WrapS<T>(pub T);
+
+impl<T: Target, U: Target> Target for PairS<T, U> {
+    fn name() -> String {
+        format!("struct({},{})", T::name(), U::name())
+    }
+    fn expected(v: &Val) -> Exp<Self> {
+        match <(T, U)>::expected(v) {
+            Exp::Value((a, b)) => Exp::Value(PairS(a, b)),
+            Exp::Error => Exp::Error,
+            Exp::Unspecified => Exp::Unspecified,
+        }
+    }
+}
+impl<T: Target> Target for WrapS<T> {
+    fn name() -> String {
+        format!("newtype({})", T::name())
+    }
+    fn expected(v: &Val) -> Exp<Self> {
+        match T::expected(v) {
+            Exp::Value(a) => Exp::Value(WrapS(a)),
+            Exp::Error => Exp::Error,
+            Exp::Unspecified => Exp::Unspecified,
+        }
+    }
+}
+
 fn viol(report: &mut Report, kind: &str, detail: String, extra: BTreeMap<String, String>) {
     let sig = format!("C18:{kind}");
     if report.already_reported(&sig) {
@@ -310,6 +341,12 @@ macro_rules! for_all_targets {
         $f::<Vec<isize>>($report, $v);
         $f::<Option<u128>>($report, $v);
         $f::<Option<i128>>($report, $v);
+        $f::<PairS<i64, i64>>($report, $v);
+        $f::<PairS<u8, String>>($report, $v);
+        $f::<Vec<PairS<i8, Option<u16>>>>($report, $v);
+        $f::<WrapS<u8>>($report, $v);
+        $f::<WrapS<i32>>($report, $v);
+        $f::<Option<WrapS<Vec<u16>>>>($report, $v);
     };
 }
 
